@@ -589,8 +589,18 @@ def run(args):
                            "nontrivial": True, "witness_of": None, "klass": b.get("klass")})
         bver, binfo = run_case_shards(PROP + "/big", "Corr.C11", [c["lit"] for c in bcases], shard_size=1, run_fn="run_big",
                                       header_extra="From Coq Require Import Uint63.\n")
+        n_before = len(rep.violations)
         decide(rep, PROP, "Corr.C11", bcases, bver, binfo, explain_expr="explain_big %s",
                header_extra="From Coq Require Import Uint63.\n")
+        # the replay files of large cases get their own names (decide numbers both lists from 0)
+        for j in range(n_before, len(rep.violations)):
+            old, concrete = rep.violations[j]
+            new = old.with_name("big_" + old.name)
+            payload = json.loads(old.read_text())
+            payload["replay_cmd"] = "./check %s --replay %s" % (PROP, new)
+            new.write_text(json.dumps(payload, indent=1))
+            old.unlink()
+            rep.violations[j] = (new, concrete)
         cov["big_verdict_counts"] = dict(cov.get("verdict_counts", {}))
         merged = dict(small_counts)
         for k, v in cov["big_verdict_counts"].items():
